@@ -196,7 +196,13 @@ func (g *gen) recoverCheck(where string, bm, mm map[string][]byte, live map[stri
 	for _, kv := range w.kv.rows() {
 		rebuilt[kv[0]] = kv[1]
 		if lv, ok := live[kv[0]]; ok && lv != kv[1] {
-			g.r.Fail("recover-different-mapping@"+where, "rebuilt index maps "+kv[0]+" elsewhere", lv, kv[1], g.r.CaseOps())
+			// a blob with several meta lines (uploaded twice concurrently, or retried after a failed
+			// index.Set) has several stored ciphertexts; the rebuilt index may name another one of them,
+			// which is fine iff that one is served as exactly the blob
+			g.r.Hit("recover:another-ciphertext-of-the-same-blob")
+			if cl := g.checkFetch(w, "recover-"+where, kv[0], false); cl != "ok" {
+				g.r.Fail("recover-different-mapping@"+where, "rebuilt index maps "+kv[0]+" to something that is not served", lv, kv[1]+" ("+cl+")", g.r.CaseOps())
+			}
 		}
 	}
 	// every acknowledged row must be back; the blobs themselves are fetched through the new storage
@@ -360,6 +366,9 @@ func (g *gen) order(shuffle bool) string {
 func (g *gen) restart(mode string, shuffle bool) string {
 	out := g.op("restart " + mode + " " + g.order(shuffle))
 	g.r.Hit("restart:" + mode + ":" + out)
+	if !g.tampered && out != "ok" {
+		g.r.Fail("store-does-not-open", "CreateStorage / readAllMetaBlobs fails over wrapped stores nobody tampered with", "ok", out, g.r.CaseOps())
+	}
 	if out == "ok" {
 		g.sinceComp = len(g.e.w.meta.m)
 	}
@@ -1080,6 +1089,85 @@ func (s *eofHook) Read(p []byte) (int, error) {
 	return n, err
 }
 
+// duplicates: the SAME plaintext blob gets two small meta blobs - by two overlapping uploads of it (both
+// pass the duplicate check; a barrier in the wrapped blobs store), or by a retry after its index.Set
+// failed - then more than SmallMetaCountLimit receives (compaction packs both lines), then a restart with
+// a wiped index: the store must open and serve every acknowledged blob.
+func (g *gen) duplicates(how string) {
+	g.begin("duplicates-" + how)
+	for i := 0; i < 2+g.r.R.Intn(3); i++ {
+		g.recv("recv", g.freshData(12+g.r.R.Intn(20)))
+	}
+	dup := g.freshData(20 + g.r.R.Intn(20))
+	ref := blob.RefFromBytes(dup).String()
+	ack := func(out string) {
+		if strings.Contains(out, "ok") {
+			if _, ok := g.ackAt[ref]; !ok {
+				g.ackAt[ref] = len(g.e.w.calls)
+			}
+		}
+	}
+	switch how {
+	case "overlap":
+		out := g.op("recvover " + hk.Hex(dup))
+		ack(out)
+		g.r.Hit("duplicates:overlapping-uploads:" + strings.ReplaceAll(out, " ", "_"))
+		// once more, now that the index has the row: both are duplicates
+		g.op("recvover " + hk.Hex(dup))
+	case "index-set-fails":
+		g.op("fault I 1")
+		out := g.recv("recv", dup)
+		g.r.Hit("duplicates:index-set-fails:" + strings.Fields(out)[0])
+		g.op("dump")
+		g.pointCheck(true)
+		out = g.recv("recv", dup)
+		ack(out)
+		g.r.Hit("duplicates:retry-after-index-set-failed:" + strings.Fields(out)[0])
+	}
+	g.op("dump")
+	twoLines := strings.Count(g.e.dump(), g.e.labelOf(ref)+"/") >= 2
+	g.r.Hit(fmt.Sprintf("duplicates:two-meta-blobs-for-one-blob=%v", twoLines))
+	g.pointCheck(true)
+	g.restart("wipe", true)
+	g.op("dump")
+	g.pointCheck(true)
+	// enough further receives for a compaction that packs both lines
+	compacted := false
+	for i := 0; i < 140 && !compacted; i++ {
+		g.recv("recv", g.freshData(12+g.r.R.Intn(20)))
+		calls := g.op("calls")
+		g.uploadFirst(calls, 2)
+		if strings.Contains(calls, "M-") {
+			compacted = true
+			g.r.Hit("duplicates:compaction-packs-both-lines")
+		}
+		if i%20 == 0 {
+			g.pointCheck(true)
+		} else {
+			g.leakScan()
+		}
+	}
+	g.op("sum")
+	g.op("dump")
+	g.pointCheck(true)
+	out := g.restart([]string{"wipe", "keep"}[g.r.R.Intn(2)], true)
+	g.r.Hit("duplicates:restart-after-compaction:" + out)
+	g.op("sum")
+	g.op("fetch @" + fmt.Sprint(len(g.e.labels)))
+	for i, l := range g.e.labels {
+		if l == ref {
+			g.op(fmt.Sprintf("fetch @%d", i+1))
+			g.checkFetch(g.e.w, "duplicates", ref, true)
+			break
+		}
+	}
+	g.restart("wipe", true)
+	g.pointCheck(true)
+	g.fetchAll("live")
+	g.crashPrefixes(5, false)
+	g.r.Distinct("duplicates:" + how)
+}
+
 // malformed op lines: both sides must refuse them the same way
 func (g *gen) malformed() {
 	g.begin("malformed")
@@ -1088,7 +1176,7 @@ func (g *gen) malformed() {
 		"recv", "recv zz", "recv E9", "recv @7", "recvas @1", "fetch", "fetch @0", "fetch @2", "fetch 0G", "stat @1 @1",
 		"enum - x", "enum @5 1", "garble E1 flop 3", "garble E1 flip x", "garble E4 flip 3", "garble Q1 flip 3",
 		"copy E1", "copy E1 M9", "swap M0 E1", "drop", "drop E7", "plant X E1", "plant M E5", "restore",
-		"fault", "fault E", "fault X 1", "fault M -1", "fault M 1 1", "restart maybe M1", "restart wipe M2", "restart wipe -", "restart wipe M1,M1", "dump 1", "frobnicate", "calls x", "sum x", "snap x",
+		"fault", "fault E", "fault X 1", "fault I", "recvover", "recvover zz", "fault M -1", "fault M 1 1", "restart maybe M1", "restart wipe M2", "restart wipe -", "restart wipe M1,M1", "dump 1", "frobnicate", "calls x", "sum x", "snap x",
 	} {
 		g.op(l)
 	}
@@ -1122,6 +1210,9 @@ func Run(r *hk.Run) {
 	lap("faults")
 	g.cancelledUpload()
 	lap("cancelled-upload")
+	g.duplicates("overlap")
+	g.duplicates("index-set-fails")
+	lap("duplicates")
 	if r.Thorough() {
 		g.tamperMatrix([]int{1, 0x80, 0}, 1)
 		lap("tamper-matrix")
